@@ -130,7 +130,7 @@ def run_local(case: Dict[str, Any], strategy: Any, workdir: str, n: int) -> Dict
 def run_s3(case: Dict[str, Any], strategy: Any) -> Dict[str, Any]:
     import datashard.lock_provider as lp
 
-    store = FakeS3Store()
+    store = FakeS3Store(etag_mode=case.get("etag_mode", "md5"))
     store.keep_log = False
     client = FakeS3Client(store)
     sched = Scheduler(strategy, clock=store.clock, max_steps=3000)
@@ -146,7 +146,7 @@ def run_s3(case: Dict[str, Any], strategy: Any) -> Dict[str, Any]:
 
     def obj_owner() -> Optional[str]:
         o = store.objects.get(("bkt", KEY))
-        return by_id.get(o.body.decode(), "?") if o is not None else None
+        return by_id.get(o.body.decode().split(":", 1)[0], "?") if o is not None else None
 
     root_cause = {"flagged": False}
 
@@ -170,7 +170,7 @@ def run_s3(case: Dict[str, Any], strategy: Any) -> Dict[str, Any]:
         if root_cause["flagged"]:
             return      # consequences of the wrongful delete are not separate findings
         if req.op == "PUT" and req.effect == "written":
-            who = by_id.get(req.kw["Body"].decode(), "?")
+            who = by_id.get(req.kw["Body"].decode().split(":", 1)[0], "?")
             now = store.clock.now()
             prev = req.__dict__.get("_prev_owner") if hasattr(req, "__dict__") else None
             for other, h in holding.items():
